@@ -15,7 +15,7 @@ import (
 func init() {
 	fw.Register(&fw.Check{
 		ID: "C20", Level: "model_checking",
-		Rule: "accepted documents = JSIGHT + closed selections of 1..2 (quick) / 1..3 (thorough) pool blocks (self-delimiting rendering); each x every fresh declaration (TYPE of each notation, ENUM, SERVER, TAG, unused MACRO, method on an unrelated path, URL block on an unrelated path, JSON-RPC block) x every insertion point between top-level declarations; and deletion of every top-level declaration nothing refers to; non-trivial = accepted base; distinct = distinct edited texts",
+		Rule:   "accepted documents = JSIGHT + closed selections of 1..2 (quick) / 1..3 (thorough) pool blocks (self-delimiting rendering); each x every fresh declaration (TYPE of each notation, ENUM, SERVER, TAG, unused MACRO, method on an unrelated path, URL block on an unrelated path, JSON-RPC block) x every insertion point between top-level declarations; and deletion of every top-level declaration nothing refers to; non-trivial = accepted base; distinct = distinct edited texts",
 		Assume: []string{"entries are compared as canonical JSON text per collection key; interaction-id lists in tag entries as sets (C10)"},
 		Run:    runC20, QuickCap: 6 * time.Minute, ThoroughCap: 40 * time.Minute,
 	})
@@ -32,7 +32,9 @@ func freshDecls() []fresh {
 		{"type-jsight", func() []*doc.Node { return []*doc.Node{doc.N("TYPE", "@fresh1").WithBody("{\n  \"f\": 1\n}")} }, []string{"userTypes/@fresh1"}},
 		{"type-regex", func() []*doc.Node { return []*doc.Node{doc.N("TYPE", "@fresh2", "regex").WithBody("/z/")} }, []string{"userTypes/@fresh2"}},
 		{"type-any", func() []*doc.Node { return []*doc.Node{doc.N("TYPE", "@fresh3", "any")} }, []string{"userTypes/@fresh3"}},
-		{"type-scalar", func() []*doc.Node { return []*doc.Node{doc.N("TYPE", "@fresh4").WithAnn("n").WithBody("12 // {min: 1}")} }, []string{"userTypes/@fresh4"}},
+		{"type-scalar", func() []*doc.Node {
+			return []*doc.Node{doc.N("TYPE", "@fresh4").WithAnn("n").WithBody("12 // {min: 1}")}
+		}, []string{"userTypes/@fresh4"}},
 		{"enum", func() []*doc.Node { return []*doc.Node{doc.N("ENUM", "@freshE").WithBody("[1, 2]")} }, []string{"userEnums/@freshE"}},
 		{"server", func() []*doc.Node {
 			return []*doc.Node{doc.N("SERVER", "@freshS").WithParen().WithKids(doc.N("BaseUrl", "\"https://fresh/\""))}
